@@ -6,7 +6,7 @@ Line-protocol driver for the persistence models (C06).
 Values (prefix tokens, one word each):  N | T | F | I<int> | D<bits> | S<cp,cp,…> | Xd<cps> | Xt<cps> |
   A<n> v… | O<n> (S<key> v)…
 Lines:
-  begin <escape> <jsonUpdFilt> <redisSrem> <redisEmpty> <redisEmptyPart> <redisFreshId> <apiReplace>    reset everything
+  begin <escape> <jsonUpdFilt> <redisSrem> <redisEmpty> <redisEmptyPart> <redisFreshId> <apiReplace> <mongoIdFull>    reset everything
   floats <bits>:<cps> …        register the text of floats (float.__repr__), cumulative until `begin`
   dates <0|1>:<cps>:<cps> …    register text ↦ zero-padded ISO text of the date it denotes (strptime)
   datefmt <0|1>:<cps>:<cps> …  register zero-padded ISO text ↦ strftime text
@@ -224,10 +224,10 @@ def setI {β : Type} (k : String) (v : β) (l : List (String × β)) : List (Str
 def flag (w : String) : Option Bool := if w == "1" then some true else if w == "0" then some false else none
 
 def dstep (d : DState) : List String → DState × String
-  | ["begin", a, b, c, e, f, g, h] =>
-    match flag a, flag b, flag c, flag e, flag f, flag g, flag h with
-    | some a, some b, some c, some e, some f, some g, some h => ({ fx := ⟨a, b, c, e, f, g, h⟩ }, "ok")
-    | _, _, _, _, _, _, _ => (d, "bad-op")
+  | ["begin", a, b, c, e, f, g, h, i] =>
+    match flag a, flag b, flag c, flag e, flag f, flag g, flag h, flag i with
+    | some a, some b, some c, some e, some f, some g, some h, some i => ({ fx := ⟨a, b, c, e, f, g, h, i⟩ }, "ok")
+    | _, _, _, _, _, _, _, _ => (d, "bad-op")
   | "floats" :: ws =>
     let parsed := ws.mapM (fun w => match w.splitOn ":" with
       | [b, t] => match b.toNat?, parseCps t with | some b, some t => some (b, t) | _, _ => none
@@ -256,7 +256,7 @@ def dstep (d : DState) : List String → DState × String
   | ["idx", w] =>                      -- Mongo identifier mapping: kind, bytes, and the id read back
     match parseS w with
     | some i =>
-      (d, match Mongo.idToDb i with
+      (d, match Mongo.idToDb d.fx i with
         | some (.oid b) => "ok o " ++ fmtCps b ++ " S" ++ fmtCps (Mongo.idFromDb (.oid b))
         | some (.str t) => "ok s - S" ++ fmtCps (Mongo.idFromDb (.str t))
         | none => "err invalid-id")
